@@ -95,8 +95,35 @@ def convert(t):
     else:
         raise SymPyException("Unable to convert " + str(t))
 
+def divisors(t):
+    """Divisors occurring in t. In HOL x / 0 = 0, while SymPy simplifies
+    x / x to 1 and treats 1 / x as undefined at 0."""
+    res = []
+    if t.is_comb():
+        if t.is_divides():
+            res.append(t.arg)
+        for arg in t.args:
+            res.extend(divisors(arg))
+    return res
+
+def divisors_nonzero(goal, var=None, interval=None):
+    """Whether every divisor in goal is certainly nonzero (on the interval)."""
+    try:
+        for d in divisors(goal):
+            d = convert(d)
+            if var is None:
+                if not (d.is_number and d.is_zero is False):
+                    return False
+            elif d.free_symbols - {var} or solveset_wrapper(d, var, interval) != sympy.EmptySet:
+                return False
+    except (SymPyException, TypeError, NotImplementedError, RecursionError):
+        return False
+    return True
+
 def solve_goal(goal):
     """Attempt to solve goal using sympy."""
+    if not divisors_nonzero(goal):
+        return False
     if goal.is_not() and goal.arg.is_equals():
         try:
             lhs, rhs = convert(goal.arg.lhs), convert(goal.arg.rhs)
@@ -140,6 +167,8 @@ def solve_with_interval(goal, cond):
 
     var = convert(cond.arg1)
     interval = convert(cond.arg)
+    if not divisors_nonzero(goal, var, interval):
+        return False
     
     if goal.is_not() and goal.arg.is_equals():
         try:
